@@ -49,13 +49,56 @@ def _label(term):
     for x in mir.walk_expr(term):
         if x[0] != "call":
             continue
-        key = x[1]
-        if key == "str::parse" and len(x) > 5 and x[5]:
-            # s.parse::<F>() is <F as FromStr>::from_str(s)
-            key = "<%s as FromStr>::from_str" % mir.short(x[5][0].get("s", "?"))
+        key = _accessor_key(x)
         if key in ACCESSOR_LABEL and ACCESSOR_LABEL[key] not in labs:
             labs.append(ACCESSOR_LABEL[key])
+            # the accessor must be applied to the value itself (or to another labelled accessor of it): a transformation
+            # slipped in between - self.normalized().to_string() - changes which text / number is written
+            via = _receiver_detour(x)
+            if via:
+                labs.append("via:" + via)
     return "<".join(labs) if labs else None
+
+
+def _accessor_key(x):
+    key = x[1]
+    if key == "str::parse" and len(x) > 5 and x[5]:
+        # s.parse::<F>() is <F as FromStr>::from_str(s)
+        key = "<%s as FromStr>::from_str" % mir.short(x[5][0].get("s", "?"))
+    return key
+
+
+IDENTITY_CALLS = ("clone", "as_ref", "borrow", "deref", "to_owned", "as_mut", "by_ref", "into", "from", "as_str", "as_slice",
+                  "unwrap_or_default")
+
+
+def _receiver_detour(x):
+    """name of the first unlabelled, non-identity call on the way from the labelled accessor `x` back to the value"""
+    if not x[3]:
+        return None
+    t = strip_refs(x[3][0])
+    for _ in range(12):
+        if not isinstance(t, tuple):
+            return None
+        if t[0] in ("arg", "phi", "const", "static"):
+            return None
+        if t[0] in ("field", "variant", "deref", "ref", "index", "ok", "try", "okval"):
+            t = strip_refs(t[1])
+            continue
+        if t[0] == "cast":
+            t = strip_refs(t[4])
+            continue
+        if t[0] == "call":
+            k = _accessor_key(t)
+            if k in ACCESSOR_LABEL or k.split("::")[-1] in IDENTITY_CALLS or k.endswith("Try>::branch") or \
+                    "BinaryDeserializer" in k or k.startswith("BinaryInput::"):
+                if not t[3]:
+                    return None
+                t = strip_refs(t[3][0])
+                continue
+            return k
+        return None
+    return None
 
 
 # ------------------------------------------------------------------------------------------------ event extraction
